@@ -60,6 +60,7 @@ def strategy(tier):
     return st.fixed_dictionaries({
         "pair": st.integers(0, 3), "args": st.lists(arg, max_size=16), "conv": conv,
         "align_stack": st.sampled_from([None, None, True, False]), "sp": st.integers(0, 7), "leaf": st.booleans(),
+        "sites": st.sampled_from([0, 0, 1, 2]),
     })
 
 
@@ -115,11 +116,21 @@ def evaluate(spec):
     callee = gtirb.Symbol(name="callee_fn", payload=gtirb.ProxyBlock(module=m), module=m)
     symargs = [gtirb.Symbol(name=f"dat{k}", payload=db, module=m) for k in range(3)]
     funcs = []
-    if not spec.get("leaf"):
-        pass
+    # the same patch object may be inserted at several sites; callables must then see each site's own context
+    try:
+        nsites = 1 + int(spec.get("sites") or 0) % 3
+    except (TypeError, ValueError) as e:
+        raise BadSpec(repr(e))
+    sites = [(bi, cb)]
+    for k in range(1, nsites):
+        bik = gtirb.ByteInterval(contents=body, address=0x1000 + 0x100 * k, section=sec)
+        cbk = gtirb.CodeBlock(offset=0, size=len(body), byte_interval=bik)
+        ir.cfg.add(gtirb.Edge(cbk, gtirb.ProxyBlock(module=m), gtirb.Edge.Label(gtirb.Edge.Type.Return)))
+        sites.append((bik, cbk))
+    site_of = {id(c): k for k, (_, c) in enumerate(sites)}
     seen_ctx = []
     args = []
-    want = []   # (kind, value)
+    want = []   # (kind, value) at site 0; callables vary with the site (see want_at)
     for a in rawargs:
         k = a["k"]
         if k == "int":
@@ -137,16 +148,16 @@ def evaluate(spec):
 
             def f(ctx, v=v):
                 seen_ctx.append(ctx)
-                return v
+                return v + 7 * site_of.get(id(ctx.block), 99)
 
             args.append(f)
             want.append(("call-int", v & mask, v))
         else:
             s = symargs[a["i"] % 3]
 
-            def g(ctx, s=s):
+            def g(ctx, a=a):
                 seen_ctx.append(ctx)
-                return s
+                return symargs[(a["i"] + site_of.get(id(ctx.block), 1)) % 3]
 
             args.append(g)
             want.append(("call-sym", s.name, None))
@@ -176,7 +187,10 @@ def evaluate(spec):
         out.fail("C17.construct", "invalid-arm64-convention-accepted", f"shadow {shadow} align {calign}")
         return out
     ctx = gr.RewritingContext(m, funcs)
-    ctx.insert_at(cb, 0, patch)
+    for _, c in sites:
+        ctx.insert_at(c, 0, patch)
+    if nsites > 1:
+        out.classes.append(f"sites={nsites}")
     # classify expected assembly problems that are known findings
     why = None
     if isa == "x64":
@@ -188,20 +202,46 @@ def evaluate(spec):
     except Exception as e:
         out.fail("C17.assembles", "apply-raises:" + exc_kind(e), repr(e)[:300], why or "", data={"why": why})
         return out
+    ncall = sum(1 for w in want if w[0].startswith("call"))
+    per_site = [0] * nsites
     for c in seen_ctx:
-        if c.block is not cb or c.offset != 0 or c.module is not m:
+        k = site_of.get(id(c.block))
+        if k is None or c.offset != 0 or c.module is not m:
             out.fail("C17.callables", "wrong-insertion-context", f"{c.block} {c.offset}")
             break
-    ncall = sum(1 for w in want if w[0].startswith("call"))
-    if len(seen_ctx) != ncall:
-        out.fail("C17.callables", "callable-invocation-count", f"{len(seen_ctx)} for {ncall} callables")
+        per_site[k] += 1
+    else:
+        if per_site != [ncall] * nsites:
+            out.fail("C17.callables", "callable-invocation-count", f"{per_site} for {ncall} callables at each of {nsites} sites")
+
+    def want_at(k):
+        # what each argument must be at site k (callables were handed that site's context)
+        res = []
+        for a, w in zip(rawargs, want):
+            if w[0] == "call-int":
+                v = a["v"] + 7 * k
+                res.append(("call-int", v & mask, v))
+            elif w[0] == "call-sym":
+                res.append(("call-sym", symargs[(a["i"] + k) % 3].name, None))
+            else:
+                res.append(w)
+        return res
+
+    for k, (bik, cbk) in enumerate(sites):
+        _judge_site(out, spec, isa, word, mask, bik, body, want_at(k), regs, shadow, calign, caller_cleanup, n_stack,
+                    align_stack, k)
+        if out.failures:
+            break
+    return out
+
+
+def _judge_site(out, spec, isa, word, mask, bi, body, want, regs, shadow, calign, caller_cleanup, n_stack, align_stack, site):
+    import gtirb
     # inserted bytes
-    plen = cb.size - len(body) if cb.byte_interval is not None else 0
     blocks = sorted(bi.blocks, key=lambda b: b.offset)
     code_end = max(b.offset + b.size for b in blocks if isinstance(b, gtirb.CodeBlock))
     total = bytes(bi.contents)
     # the patch is everything in front of the original nop+ret
-    idx = total.find(body, 0)
     pos = code_end - len(body)
     if total[pos:pos + len(body)] != body:
         out.fail("C17.bytes", "original-code-not-found-after-patch", total.hex())
@@ -263,8 +303,8 @@ def evaluate(spec):
             where = f"stack slot sp+{shadow + k * word}"
         if not matches(w, got):
             desc = f"&{w[1]}" if w[0].endswith("sym") else hex(w[1])
-            out.fail("C17.arguments", "wrong-value", f"argument {idx} ({desc}) in {where}: got {got!r}",
-                     w[0] + ("/reg" if idx < len(regs) else "/stack"), data={"arg": w[0]})
+            out.fail("C17.arguments", "wrong-value", f"argument {idx} ({desc}) in {where}: got {got!r}" + (f" at insertion site {site}" if site else ""),
+                     w[0] + ("/reg" if idx < len(regs) else "/stack") + ("/later-site" if site else ""), data={"arg": w[0]})
             break
     # align_stack aligns to the ABI's own stack alignment; a custom convention
     # that asks for more is only promised an aligned call from an aligned start
